@@ -313,7 +313,22 @@ def check(F, rep, tier):
         take = [t for b2, t in pf.calls() if (mir.callee(t) or "").endswith("Iterator::take")]
         chars = any((mir.callee(t) or "").endswith("str>::chars") for b2, t in pf.calls())
         byte_slice = any("Index<std::ops::RangeTo<usize>>" in (t[1].get("full") or "") for b2, t in pf.calls())
-        if take and chars and not byte_slice: rep.ok("R15.6", "prefix returns chars().take(length): at most `length` characters", nontrivial_key="prefix")
+        # `match input.char_indices().nth(length) { Some((cut, _)) => input[..cut], None => input }`: the cut is the byte offset of the
+        # first character beyond `length` characters - the same bound, spelled with a slice
+        if byte_slice:
+            ctx2 = panics.Ctx(F, cg)
+            sl_ok = []
+            for b2, t in pf.calls():
+                if "Index<std::ops::RangeTo<usize>>" not in (t[1].get("full") or ""): continue
+                ok_, why_ = panics.slice_ok(F, pf, b2, t, t[1].get("full") or "")
+                from_len = any((mir.callee(pf.blocks[int(d_)]["t"]) or "").endswith("Iterator::nth") and any(str(mir.const_arg(pf, a2)) == "length" for b3, t3 in pf.calls() if (mir.callee(t3) or "").endswith("::get") for a2 in t3[2][1:])
+                               for k_, d_ in mir.deep_origins(pf, t[2][1], stop=()) if k_ == "call" and d_.isdigit() and pf.blocks[int(d_)]["t"][0] == "call")
+                sl_ok.append(ok_ and "char_indices" in why_ and from_len)
+            if sl_ok and all(sl_ok):
+                rep.ok("R15.6", "prefix returns input[..offset of character number `length`]: at most `length` characters", nontrivial_key="prefix")
+                byte_slice = None
+        if byte_slice is None: pass
+        elif take and chars and not byte_slice: rep.ok("R15.6", "prefix returns chars().take(length): at most `length` characters", nontrivial_key="prefix")
         elif byte_slice: rep.bad("R15.6", "prefix-bytes", "prefix() bounds bytes, not characters (and can split a multi-byte character)", pf.where())
         else: rep.bad("R15.6", "prefix-shape", "prefix() does not bound its result with chars().take(length)", pf.where())
     pif = F.fn("crate::cli::utils::template::functions::prefix_if_function")
